@@ -24,9 +24,12 @@
      member extraction, two call paths of extract_tar_stream:
        path "B"  extractfile + FileStreamReaderWrapper.read loop  (`while content := read(buf)`)
        path "A"  tar.extract -> makefile -> copyfileobj/write     (`while bufsize > 0`), first member only
-   FixSeek / FixTrunc switch on the PROPOSED repairs (seek loops and raises at end of stream;
-   truncated/invalid headers and short data raise) so that TLC shows the repaired design satisfies
-   every property below.
+   Three switches select the design:
+     FixSeek   seek loops through TellableStreamWrapper.read and raises at end of stream   (in /repo since 02c607f)
+     FixData   write() and FileStreamReaderWrapper.read raise when the stream ends inside data (in /repo since 02c607f)
+     FixHdr    next() raises on an empty / truncated / invalid header after the first member  (PROPOSED, not in /repo)
+   AS CODED = FixSeek /\ FixData /\ ~FixHdr; all FALSE is the reader before 02c607f; all TRUE is the
+   repaired design, for which TLC shows every property below.
 
    Properties (the statement of C23):
      TellIsTrue     position reported by tell() = units really consumed
@@ -41,8 +44,9 @@ CONSTANTS B,          \* units per block
           Paths,      \* subset of {"A", "B"}
           WithTrunc,  \* BOOLEAN: also explore every truncation point
           WithCorrupt,\* BOOLEAN: also explore one corrupted member header
-          FixSeek,    \* BOOLEAN: proposed repair of seek
-          FixTrunc    \* BOOLEAN: proposed repair of the swallowed truncation / corruption branches
+          FixSeek,    \* BOOLEAN: seek loops and raises at end of stream
+          FixData,    \* BOOLEAN: the end of the stream inside a member's data raises
+          FixHdr      \* BOOLEAN: proposed repair of the swallowed truncated / corrupted header branches of next()
 
 VARIABLES sh, trunc, corrupt, path, buf,     \* the case (never change)
           raw,        \* units really consumed from the raw stream
@@ -152,7 +156,7 @@ HdrRead ==
 \* end of archive reported without error (the swallowing branches of next()), or an error
 Swallow(c) ==
   IF sub THEN pc' = "error" /\ UNCHANGED causes                      \* SubsequentHeaderError -> ReadError
-  ELSE IF offset = 0 \/ FixTrunc THEN pc' = "error" /\ UNCHANGED causes
+  ELSE IF offset = 0 \/ FixHdr THEN pc' = "error" /\ UNCHANGED causes
   ELSE pc' = "done" /\ causes' = causes \cup {c}
 
 HdrParse ==
@@ -208,7 +212,7 @@ DataFin ==
   /\ pc = "data" /\ fin
   /\ IF want = 0 THEN pc' = "dstart" /\ UNCHANGED <<want, got, fin, causes>>
      ELSE \* the stream ended inside the data
-       IF FixTrunc THEN pc' = "error" /\ UNCHANGED <<want, got, fin, causes>>
+       IF FixData THEN pc' = "error" /\ UNCHANGED <<want, got, fin, causes>>
        ELSE IF UseA
          THEN \* write(): `bufsize -= len(buf)` and read again; an empty answer never leaves the loop
               IF got = 0 THEN pc' = "hang" /\ causes' = causes \cup {"eof-in-data"} /\ UNCHANGED <<want, got, fin>>
@@ -232,9 +236,16 @@ OwnData     == okdata
 NoHang      == pc # "hang"
 Intact      == trunc = Total /\ corrupt = 0
 IntactSucceeds == (Intact /\ pc \in Terminal) => pc = "done"       \* a complete, valid stream is accepted
-\* as coded: every wrong outcome is explained by one of the recorded branches, and an intact stream
-\* loses members only through a short answer inside seek
+\* every wrong outcome is explained by one of the recorded branches
 DefectsExplained == (pc = "hang" \/ (pc = "done" /\ ~Exact)) => causes # {}
+\* as coded (FixSeek /\ FixData /\ ~FixHdr): an intact stream is reproduced exactly for every chunking, and the only
+\* wrong outcome left is a swallowed header error on a truncated or corrupted stream
+IntactExact == (Intact /\ pc \in Terminal) => (pc = "done" /\ Exact)
+OnlyHeaderSwallowingLeft == (pc = "done" /\ ~Exact) =>
+                               /\ ~Intact
+                               /\ causes \cap {"empty-header", "truncated-header", "invalid-header"} # {}
+                               /\ causes \subseteq {"empty-header", "truncated-header", "invalid-header"}
+\* before 02c607f (all switches FALSE): an intact stream loses members only through a short answer inside seek
 LossOnlyByShortSeek == (Intact /\ pc = "done" /\ ~Exact) => "short-read-in-seek" \in causes
 Terminates  == <>(pc \in {"done", "error"})
 ==============================================================================
